@@ -126,6 +126,9 @@ func runStreamJob(job *Job, res *Result) {
 			if job.Args["only_order"] == "1" && class != "stream-order" {
 				return // this job judges the emission order only (C08); everything else is C17's business
 			}
+			if job.Args["only_slots"] == "1" && class != "slots-exceeded" {
+				return // this job judges the slot bound only (C06)
+			}
 			v := Violation{Prop: job.Prop, Class: class, Detail: detail, Signature: sig, Job: job.ID}
 			if job.ReplayDir != "" {
 				os.MkdirAll(job.ReplayDir, 0777)
@@ -150,7 +153,10 @@ func runStreamJob(job *Job, res *Result) {
 		sort.Strings(files)
 		outcomes[oc+"|"+strings.Join(files, " ")] = true
 		if len(res.Samples) < 2 {
-			res.Samples = append(res.Samples, fmt.Sprintf("schedule[%s] outcome[%s] files[%s] stuck[%v]", s.ScheduleString(30), oc, strings.Join(files, " "), s.StuckChildren()))
+			res.Samples = append(res.Samples, fmt.Sprintf("schedule[%s] outcome[%s] files[%s] stuck[%v] max-live-children[%d]", s.ScheduleString(30), oc, strings.Join(files, " "), s.StuckChildren(), s.MaxLiveChildren()))
+		}
+		if m := s.MaxLiveChildren(); m > maxT {
+			add("slots-exceeded", fmt.Sprintf("%d commands (1 core each) executing at the same time with maxConcurrentTasks=%d", m, maxT), "")
 		}
 		stuck := s.StuckChildren()
 		if oc == "deadlock" && len(stuck) > 0 {
